@@ -283,8 +283,39 @@ type RecordTypeInfo struct {
 
 var g_recInfoDic = dict.New[string, RecordTypeInfo]()
 
+func FTypeToKey(ft FType) string {
+	switch _v2 := (ft).(type) {
+	case FType_FTypeVar:
+		fp := _v2.Value
+		return ("'" + fp.Name)
+	case FType_FFunc:
+		fft := _v2.Value
+		return funcTypeToGo(fft, FTypeToKey)
+	case FType_FRecord:
+		fr := _v2.Value
+		return recordTypeToGo(FTypeToKey, fr)
+	case FType_FUnion:
+		fu := _v2.Value
+		return fUnionToGo(FTypeToKey, fu)
+	case FType_FParamd:
+		pt := _v2.Value
+		return fpToGo(FTypeToKey, pt)
+	case FType_FSlice:
+		fs := _v2.Value
+		return fSliceToGo(fs, FTypeToKey)
+	case FType_FTuple:
+		ftp := _v2.Value
+		return fTupleToGo(FTypeToKey, ftp)
+	case FType_FFieldAccess:
+		fa := _v2.Value
+		return ((("FieldAccess_Unresoled_" + FTypeToKey(fa.RecType)) + "_") + fa.FieldName)
+	default:
+		return FTypeToGo(ft)
+	}
+}
+
 func encodedKey[T0 any](name T0, targs []FType) string {
-	encts := frt.Pipe(slice.Map(FTypeToGo, targs), (func(_r0 []string) string { return strings.Concat(",", _r0) }))
+	encts := frt.Pipe(slice.Map(FTypeToKey, targs), (func(_r0 []string) string { return strings.Concat(",", _r0) }))
 	return frt.SInterP("%s<%s>", name, encts)
 }
 
@@ -343,9 +374,9 @@ func frMatch(rt RecordType, fieldNames []string) bool {
 }
 
 func faResolve(fat FieldAccessType) FType {
-	switch _v2 := (fat.RecType).(type) {
+	switch _v3 := (fat.RecType).(type) {
 	case FType_FRecord:
-		rt := _v2.Value
+		rt := _v3.Value
 		field := frGetField(rt, fat.FieldName)
 		return field.Ftype
 	default:
